@@ -150,9 +150,16 @@ impl<R: BufRead + Seek + Position> ReadValue for ValueReader<R> {
     }
 
     fn skip(&mut self, len: usize) -> Result<(), ProtobufError> {
+        // Seek to the last skipped byte and read it, as seeking past the end
+        // of the input does not fail.
+        let Some(offset) = len.checked_sub(1) else {
+            return Ok(());
+        };
         // Lengths above `i64::MAX` would turn into a backwards seek.
-        let offset = i64::try_from(len).map_err(|_| ProtobufError::new(ErrorKind::Eof))?;
+        let offset = i64::try_from(offset).map_err(|_| ProtobufError::new(ErrorKind::Eof))?;
         self.inner.seek_relative(offset)?;
+        let mut last = [0; 1];
+        self.inner.read_exact(&mut last)?;
         Ok(())
     }
 
